@@ -60,6 +60,12 @@ def gen_inputs(disc, rng: common.Rng) -> dict[str, Any]:
     return data
 
 
+def _fresh(data):
+    """A private copy of input data (a discipline may modify the arrays it is given in place: the original and
+    the copy must each receive the input as generated)."""
+    return {k: (v.copy() if isinstance(v, np.ndarray) else _copy.deepcopy(v)) for k, v in data.items()}
+
+
 def _call(f, *a, **k):
     try:
         return ("ok", f(*a, **k))
@@ -68,14 +74,14 @@ def _call(f, *a, **k):
 
 
 def _exec_view(disc, data):
-    st, r = _call(disc.execute, dict(data))
+    st, r = _call(disc.execute, _fresh(data))
     if st == "exc":
         return ("exc", r.split(":")[0]), r
     return ("out", OBS.canon(dict(r))), ""
 
 
 def _lin_view(disc, data):
-    st, r = _call(disc.linearize, dict(data), compute_all_jacobians=True)
+    st, r = _call(disc.linearize, _fresh(data), compute_all_jacobians=True)
     if st == "exc":
         return ("exc", r.split(":")[0]), r
     return ("jac", OBS.canon({k: dict(v) for k, v in r.items()})), ""
@@ -154,7 +160,7 @@ def apply_edits(disc, edits, pre_inputs) -> list[tuple[str, str, Any]]:
                     gout.required_names.discard(n)
                     done.append((kind, n, False))
             elif kind == "use":
-                x = dict(pre_inputs[int(arg) % len(pre_inputs)]) if pre_inputs else {}
+                x = _fresh(pre_inputs[int(arg) % len(pre_inputs)]) if pre_inputs else {}
                 st, _ = _call(disc.execute, x)
                 done.append((kind, st, None))
         except Exception as ex:  # noqa: BLE001  (an edit the class refuses is not part of the case)
@@ -260,13 +266,13 @@ def run_discipline_case(case: dict[str, Any], tmp: Path) -> Outcome:
     pre_inputs = [gen_inputs(disc, rng) for _ in range(n_pre)]
     if moment in ("executed", "linearized"):
         for x in pre_inputs:
-            st, r = _call(disc.execute, dict(x))
+            st, r = _call(disc.execute, _fresh(x))
             if st == "exc":
                 out.status = "skipped"
                 out.detail = "original cannot execute on the generated input: " + r
                 return out
     if moment == "linearized":
-        st, r = _call(disc.linearize, dict(pre_inputs[-1]), compute_all_jacobians=True)
+        st, r = _call(disc.linearize, _fresh(pre_inputs[-1]), compute_all_jacobians=True)
         if st == "exc":
             out.status = "skipped"
             out.detail = "original cannot linearize: " + r
@@ -345,9 +351,9 @@ def run_discipline_case(case: dict[str, Any], tmp: Path) -> Outcome:
             ref = build_discipline(case, tmp)
             if moment in ("executed", "linearized"):
                 for x in pre_inputs:
-                    ref.execute(dict(x))
+                    ref.execute(_fresh(x))
             if moment == "linearized":
-                ref.linearize(dict(pre_inputs[-1]), compute_all_jacobians=True)
+                ref.linearize(_fresh(pre_inputs[-1]), compute_all_jacobians=True)
             apply_edits(ref, case.get("edits"), pre_inputs)
         except Exception as e:  # noqa: BLE001
             out.status = "skipped"
